@@ -100,6 +100,68 @@ Proof.
   - rewrite (slice_sub b 4 12 10 (10 + 2) _ Hs) by lia. reflexivity.
 Qed.
 
+(* the pointer-rule checker of the specification (judge13's core) accepts the decoded message *)
+Definition ptr_ok (bm : bytes) (m : dmsg) : Prop :=
+  forall eq ea en er, Forall (fun a => a_nocomp a = false) (eq ++ ea ++ en ++ er) ->
+    length eq = length (m_qs m) -> length ea = length (m_an m) -> length en = length (m_ns m) ->
+    length er = length (m_ar m) ->
+    exists st, (let* st := check_qs bm [] eq (m_qs m) in
+                let* st := check_rrs bm st ea (m_an m) in
+                let* st := check_rrs bm st en (m_ns m) in
+                check_rrs bm st er (m_ar m)) = Ok st.
+
+Lemma Forall2_wfL rs al : Forall2 rrd rs al -> Forall arr_wf al -> Forall rr_wfL rs.
+Proof.
+  induction 1; intros Hw; constructor; inversion Hw; subst; auto. eapply rr_wfL_of; eauto.
+Qed.
+
+Lemma ptr_chain bm (L : nat -> Prop) yq r1 r2 r3 rs m1 m2 len dq d1 d2 d3 :
+  qs_at bm L yq header_size rs -> rrs_at bm L r1 rs m1 -> rrs_at bm L r2 m1 m2 -> rrs_at bm L r3 m2 len ->
+  len <= length bm ->
+  (forall s, L s <-> In s (qs_starts yq ++ rrs_starts (r1 ++ r2 ++ r3))) ->
+  Forall2 (fun q d => dq_pos d = nc_pos (lq_name q)) yq dq ->
+  Forall2 rlink r1 d1 -> Forall2 rlink r2 d2 -> Forall2 rlink r3 d3 ->
+  Forall (fun q => wf_name (nc_name (lq_name q))) yq -> Forall rr_wfL r1 -> Forall rr_wfL r2 -> Forall rr_wfL r3 ->
+  forall id f2 f3, ptr_ok bm (mkDM id f2 f3 dq d1 d2 d3).
+Proof.
+  intros Hq H1 H2 H3 Hlen Ht Lq L1 L2 L3 Wq W1 W2 W3 id f2 f3 eq ea en er Hno Eq Ea En Er.
+  simpl in Eq, Ea, En, Er.
+  apply Forall_app in Hno as [Nq Hno]. apply Forall_app in Hno as [Na Hno]. apply Forall_app in Hno as [Nn Nr].
+  pose proof (qs_le _ _ _ _ _ Hq). pose proof (rrs_le _ _ _ _ _ H1). pose proof (rrs_le _ _ _ _ _ H2).
+  pose proof (rrs_le _ _ _ _ _ H3).
+  cbn [m_qs m_an m_ns m_ar].
+  rewrite (check_qs_ok bm L yq dq eq [] (rrs_starts (r1 ++ r2 ++ r3)) header_size rs); auto; try lia.
+  2:{ intros s Hs. apply Ht in Hs. exact Hs. }
+  2:{ intros s []. }
+  2:{ intros s Hs. rewrite !rrs_starts_app, !in_app_iff in Hs. destruct Hs as [K|[K|K]].
+      - apply (rrs_starts_bound _ _ _ _ _ _ H1) in K; lia.
+      - apply (rrs_starts_bound _ _ _ _ _ _ H2) in K; lia.
+      - apply (rrs_starts_bound _ _ _ _ _ _ H3) in K; lia. }
+  cbn [bind app].
+  rewrite (check_rrs_ok bm L r1 d1 ea (qs_starts yq) (rrs_starts (r2 ++ r3)) rs m1); auto; try lia.
+  2:{ intros s Hs. apply Ht in Hs. rewrite !rrs_starts_app, !in_app_iff in *. tauto. }
+  2:{ intros s Hs. apply (qs_starts_bound _ _ _ _ _ _ Hq) in Hs; lia. }
+  2:{ intros s Hs. rewrite !rrs_starts_app, !in_app_iff in Hs. destruct Hs as [K|K].
+      - apply (rrs_starts_bound _ _ _ _ _ _ H2) in K; lia.
+      - apply (rrs_starts_bound _ _ _ _ _ _ H3) in K; lia. }
+  cbn [bind].
+  rewrite (check_rrs_ok bm L r2 d2 en (qs_starts yq ++ rrs_starts r1) (rrs_starts r3) m1 m2); auto; try lia.
+  2:{ intros s Hs. apply Ht in Hs. rewrite !rrs_starts_app, !in_app_iff in *. tauto. }
+  2:{ intros s Hs. rewrite in_app_iff in Hs. destruct Hs as [K|K].
+      - apply (qs_starts_bound _ _ _ _ _ _ Hq) in K; lia.
+      - apply (rrs_starts_bound _ _ _ _ _ _ H1) in K; lia. }
+  2:{ intros s K. apply (rrs_starts_bound _ _ _ _ _ _ H3) in K; lia. }
+  cbn [bind].
+  rewrite (check_rrs_ok bm L r3 d3 er ((qs_starts yq ++ rrs_starts r1) ++ rrs_starts r2) [] m2 len); auto; try lia.
+  - eauto.
+  - intros s Hs. apply Ht in Hs. rewrite !rrs_starts_app, !in_app_iff in *. tauto.
+  - intros s Hs. rewrite !in_app_iff in Hs. destruct Hs as [[K|K]|K].
+    + apply (qs_starts_bound _ _ _ _ _ _ Hq) in K; lia.
+    + apply (rrs_starts_bound _ _ _ _ _ _ H1) in K; lia.
+    + apply (rrs_starts_bound _ _ _ _ _ _ H2) in K; lia.
+  - intros s [].
+Qed.
+
 Lemma get16_some (b : bytes) i : i + 2 <= length b -> exists v, get16 b i = Some v.
 Proof.
   intros H. unfold get16.
@@ -123,7 +185,7 @@ Theorem roundtrip buf limit w0 ops : writer_new buf limit = Ok w0 ->
         Forall2 (rr_rel xparts) (am_ar (areplay am0 ops (rr_outcomes rr)) ++ pseudo (d_w d)) (m_ar m) /\
         get16 (firstn len b) 0 = Some (m_id m) /\ nth_error (firstn len b) 2 = Some (m_flags2 m) /\
         nth_error (firstn len b) 3 = Some (m_flags3 m) /\ agree 4 (w_buf (d_w d)) b /\ 12 <= len /\
-        am_mode (areplay am0 ops (rr_outcomes rr)) = w_mode (d_w d)
+        am_mode (areplay am0 ops (rr_outcomes rr)) = w_mode (d_w d) /\ ptr_ok (firstn len b) m
     | None => True
     end.
 Proof.
@@ -164,7 +226,7 @@ Proof.
   (* questions *)
   pose proof (Forall2_len _ _ _ Fq) as Lq.
   destruct (qs_decode bm header_size len (length b) LF Hcl' Hsd' (y_qs yF) (am_qs A) header_size
-              (w_rr_start (d_w d)) P1' Fq Wq ltac:(lia)) as [qds [Eq Rq]].
+              (w_rr_start (d_w d)) P1' Fq Wq ltac:(lia)) as [qds [Eq [Rq Lkq]]].
   (* the three record sections *)
   apply Forall2_app_inv_r in Fr as [rs1 [rest1 [F1 [Fr Ey1]]]].
   apply Forall2_app_inv_r in Fr as [rs2 [rs3 [F2 [F3 Ey2]]]].
@@ -174,14 +236,22 @@ Proof.
   pose proof (rrs_le _ _ _ _ _ Q1). pose proof (rrs_le _ _ _ _ _ Q2). pose proof (rrs_le _ _ _ _ _ Q3).
   assert (Wps : Forall arr_wf (am_ar A ++ pseudo (d_w d))).
   { apply Forall_app. split; auto. apply pseudo_wf; auto. }
-  destruct (rrs_decode bm header_size len (length b) LF Hcl' Hsd' rs1 (am_an A) _ _ Q1 F1 Wa ltac:(lia)) as [d1 [E1 R1]].
-  destruct (rrs_decode bm header_size len (length b) LF Hcl' Hsd' rs2 (am_ns A) _ _ Q2 F2 Wn ltac:(lia)) as [d2 [E2 R2]].
-  destruct (rrs_decode bm header_size len (length b) LF Hcl' Hsd' rs3 _ _ _ Q3 F3 Wps ltac:(lia)) as [d3 [E3 R3]].
+  destruct (rrs_decode bm header_size len (length b) LF Hcl' Hsd' rs1 (am_an A) _ _ Q1 F1 Wa ltac:(lia)) as [d1 [E1 [R1 Lk1]]].
+  destruct (rrs_decode bm header_size len (length b) LF Hcl' Hsd' rs2 (am_ns A) _ _ Q2 F2 Wn ltac:(lia)) as [d2 [E2 [R2 Lk2]]].
+  destruct (rrs_decode bm header_size len (length b) LF Hcl' Hsd' rs3 _ _ _ Q3 F3 Wps ltac:(lia)) as [d3 [E3 [R3 Lk3]]].
   pose proof (Forall2_len _ _ _ F1) as L1. pose proof (Forall2_len _ _ _ F2) as L2.
   pose proof (Forall2_len _ _ _ F3) as L3. rewrite app_length in L3.
   pose proof (pseudo_length (d_w d)) as Lp.
   exists d, (mkDM vid f2 f3 qds d1 d2 d3). split; [exact Hrun|]. split;
-    [|cbn [m_qs m_an m_ns m_ar m_id m_flags2 m_flags3]; repeat split; auto; lia].
+    [|cbn [m_qs m_an m_ns m_ar m_id m_flags2 m_flags3]; repeat split; auto; try lia].
+  2:{ apply (ptr_chain bm LF (y_qs yF) rs1 rs2 rs3 (w_rr_start (d_w d)) m1 m2 len); auto; try lia.
+      - intros s. rewrite P3, Ey1, Ey2. reflexivity.
+      - clear - Fq Wq. induction Fq as [|q a qs al [D1 _] _ IH]; constructor; inversion Wq; subst.
+        + rewrite D1. apply H1.
+        + apply IH; auto.
+      - eapply Forall2_wfL; eauto.
+      - eapply Forall2_wfL; eauto.
+      - eapply Forall2_wfL; eauto. }
   unfold decode_msg. rewrite Gid, Gf2, Gf3, G4, G6, G8, G10.
   replace (N.to_nat (w_qd (d_w d))) with (length (y_qs yF)) by lia.
   change 12 with header_size. rewrite Eq.
@@ -223,7 +293,7 @@ Proof.
   destruct (roundtrip buf limit w0 ops H0 Hc Hw1 Hw2) as [rr [E HR]].
   exists rr. split; auto.
   destruct (rr_final rr) as [[len b]|]; auto.
-  destruct HR as [d [m [Hrun [Ed [Rq [Ra [Rn [Rr [Gid [G2 [G3 [Ag [Hl Hmode]]]]]]]]]]]]].
+  destruct HR as [d [m [Hrun [Ed [Rq [Ra [Rn [Rr [Gid [G2 [G3 [Ag [Hl [Hmode Hptr]]]]]]]]]]]]]].
   pose proof (hrun ops (mkD w0 []) ah0 d (rr_outcomes rr) true (writer_new_inv _ _ _ H0) (HInv_new _ _ _ H0) Hw3 Hrun) as Hi.
   cbn [d_w] in Hi. set (H := hreplay ah0 ops (rr_outcomes rr)) in *.
   exists m. split; auto. split.
@@ -241,4 +311,22 @@ Proof.
     inversion F2. inversion F3. repeat split; auto.
   - split; auto. split; auto. split; auto.
     rewrite Hmode, <- exactf_of. rewrite <- (pseudo_eq _ _ Hi). exact Rr.
+Qed.
+
+(* C13 through the specification's own checker: the decoded finished message passes the pointer rules
+   (every pointer met leads strictly before its name to a label start collected from the names decoded
+   before it; no pointer in uncompressible RDATA names) *)
+Theorem pointer_rules buf limit w0 ops : writer_new buf limit = Ok w0 ->
+  run_contract (mkD w0 []) g0 ops -> Forall op_wf ops -> Forall op_wf2 ops ->
+  exists rr, run_writer buf limit ops = Ok rr /\
+    match rr_final rr with
+    | Some (len, b) => exists m, decode_msg (firstn len b) = Some m /\ ptr_ok (firstn len b) m
+    | None => True
+    end.
+Proof.
+  intros H0 Hc Hw1 Hw2.
+  destruct (roundtrip buf limit w0 ops H0 Hc Hw1 Hw2) as [rr [E HR]].
+  exists rr. split; auto.
+  destruct (rr_final rr) as [[len b]|]; auto.
+  destruct HR as [d [m [Hrun [Ed [_ [_ [_ [_ [_ [_ [_ [_ [_ [_ Hptr]]]]]]]]]]]]]]. eauto.
 Qed.
